@@ -10,9 +10,14 @@ Every `unwrap!`, `unreachable!`, slice index is a `Res.panic` in the model, ever
 runs on fuel and reports `Res.panic .fuel` when the fuel is exhausted, so that
 "never panics / always terminates" is a theorem about the model (Props/C16), not an assumption.
 
-The model follows the tree *after* the three `fix:` commits of C16 (checked length arithmetic,
-fused iterators, `container_len` within the slice); `Old.len` keeps the previous arithmetic so that
-the failing witness stays a theorem.
+The one integer that is **not** a `usize`: the nesting counter `level` of `container_next` /
+`container_value_len` is an `i32` (literal fallback) and is modelled as a checked `i32` (`addI32`, `subI32`,
+`I32LIM = 2^31`); this is why the no-panic theorems carry `len < 2^31`.
+
+The model follows the tree *after* the `fix:` commits of C16 (checked length arithmetic, fused iterators,
+`container_len` within the slice, `tlv_iter` nesting, `bytes_iter` 64-bit strings, `TLVWrite::tlv` refusing
+strings that do not fit their length field); `Old.elemLen` keeps the previous arithmetic so that the failing
+witness stays a theorem, and `encode` is the truncating writer (`write` the fixed, fallible one).
 Import-free (apart from the generated constants) so that the driver links as an executable.
 -/
 namespace Tlv
